@@ -83,7 +83,7 @@ PLAN = {
                     "CTypes": '{"none", "t1"}'},
             "ops": ["CreateBucket", "PutVersioning", "PutObject", "GetObject", "DeleteObject", "CopyObject", "AppendObject",
                     "CreateUpload", "UploadPart", "UploadPartCopy", "CompleteUpload", "Transition", "Transition", "PutTagging"]},
-    "C13": {"stacks_quick": ["fs"], "stacks_thorough": ["fs", "sql", "classes"],
+    "C13": {"stacks_quick": ["classes"], "stacks_thorough": ["classes", "fs", "sql"],
             "gen": {"Buckets": '{"b1"}', "Keys": '{"k1", "k2"}', "Blobs": '{"c1", "c2", "c3"}', "MaxParts": "2"},
             "ops": ["CreateBucket", "PutVersioning", "PutObject", "DeleteObject", "CopyObject", "AppendObject", "CreateUpload",
                     "UploadPart", "CompleteUpload", "PutTagging", "Transition"]},
